@@ -75,7 +75,8 @@ def outcome (o : Op) : List Msg → Outcome
 
 /-! ## device connect, timeout branch -/
 
-inductive CEv | connResp (address : Nat) | timeoutFire | discResp (address : Nat) (connected : Bool) | discTimeout
+/-- `resp a c` = a `BluetoothDeviceConnectionResponse` for address `a` with `connected = c` -/
+inductive CEv | resp (address : Nat) (connected : Bool) | timeoutFire | discTimeout
 deriving Repr
 
 inductive CPhase | connecting | disconnecting | done (ok : Bool)
@@ -91,15 +92,17 @@ structure CSt where
   log : List Act := []
 
 def cStep (s : CSt) : CEv → CSt
-  | .connResp a =>
-    if s.phase = .connecting ∧ a = s.address then { s with phase := .done true, log := s.log ++ [.returnOk] } else s
+  | .resp a connected =>
+    -- while connecting ANY connection state for the address resolves the call ("we do not want to wait the whole
+    -- timeout if the device disconnects or we get an error"); while disconnecting only `connected = false` does
+    if s.phase = .connecting ∧ a = s.address then { s with phase := .done true, log := s.log ++ [.returnOk] }
+    else if s.phase = .disconnecting ∧ a = s.address ∧ !connected then { s with phase := .done false, log := s.log ++ [.raiseTimeout] }
+    else s
   | .timeoutFire =>
     if s.phase = .connecting then
       -- unsubscribe first, then the disconnect request, then wait for it (bounded), then raise
       { s with phase := .disconnecting, subscribed := false, log := s.log ++ [.unsub, .writeDisconnect s.address] }
     else s
-  | .discResp a connected =>
-    if s.phase = .disconnecting ∧ a = s.address ∧ !connected then { s with phase := .done false, log := s.log ++ [.raiseTimeout] } else s
   | .discTimeout =>
     if s.phase = .disconnecting then { s with phase := .done false, log := s.log ++ [.raiseTimeout] } else s
 
